@@ -109,6 +109,8 @@ def boundary_default_case(rng, case):
         case['k'] = ks
         case['kind'] = 'dtype-min'
         case['mind'] = min(case['mind'], 40)
+        # sums of values at the edge of a 64-bit range overflow in any fixed-width arithmetic: not the subject here
+        case['crits'] = [c for c in case['crits'] if c[0] != 'sum']
     elif dt.startswith('float') and rng.random() < 0.4 and case['fb'] == 0 and all(x is not None for x in case['k']):
         # large magnitudes where subtracting 1 is a no-op in the array's dtype
         big = rng.choice([2 ** 24, 2 ** 25, 2 ** 30, -2 ** 25, -2 ** 30]) if dt == 'float32' else rng.choice([2 ** 53, 2 ** 60, -2 ** 60])
